@@ -88,13 +88,20 @@ func checkC16(cx *Ctx, r *Report) {
 		return
 	}
 	rets := returnsOf(fn)
-	if len(rets) != 1 || len(rets[0].Results) != 2 {
-		r.Undecided("R-SELECT", "GetAcsUrlAndBindingForResponse", w.FnPos(fn), "expected a single return of two results")
+	if len(rets) == 0 {
+		r.Undecided("R-SELECT", "GetAcsUrlAndBindingForResponse", w.FnPos(fn), "no return found")
 		return
 	}
 	var s0, s1 []acsSite
-	phiSites(rets[0].Results[0], rets[0].Block(), map[ssa.Value]bool{}, &s0)
-	phiSites(rets[0].Results[1], rets[0].Block(), map[ssa.Value]bool{}, &s1)
+	seen0, seen1 := map[ssa.Value]bool{}, map[ssa.Value]bool{}
+	for _, ret := range rets {
+		if len(ret.Results) != 2 {
+			r.Undecided("R-SELECT", "GetAcsUrlAndBindingForResponse", w.InstrPos(ret), "expected returns of two results")
+			return
+		}
+		phiSites(ret.Results[0], ret.Block(), seen0, &s0)
+		phiSites(ret.Results[1], ret.Block(), seen1, &s1)
+	}
 	by1 := map[*ssa.BasicBlock]ssa.Value{}
 	for _, s := range s1 {
 		by1[s.pred] = s.val
@@ -102,9 +109,9 @@ func checkC16(cx *Ctx, r *Report) {
 	lvf := cx.newVFlow("GetAcsUrlAndBindingForResponse", fn)
 	helpers := cx.xsBoolHelpers()
 	res0phis := map[ssa.Value]bool{}
-	{
+	for _, ret := range rets {
 		var tmp []acsSite
-		phiSites(rets[0].Results[0], rets[0].Block(), res0phis, &tmp)
+		phiSites(ret.Results[0], ret.Block(), res0phis, &tmp)
 	}
 	nElem := 0
 	stage3FlagSeen := false
@@ -128,7 +135,7 @@ func checkC16(cx *Ctx, r *Report) {
 		}
 		slot0, f0 := cx.elemFieldOf(s.val)
 		slot1, f1 := cx.elemFieldOf(other)
-		if slot0 == nil || slot1 == nil || slot0 != slot1 || f0 != "Location" || f1 != "Binding" {
+		if slot0 == nil || slot1 == nil || !sameSlot(slot0, slot1) || f0 != "Location" || f1 != "Binding" {
 			r.Fail("R-SELECT", key+":pairing", w.InstrPos(s.pred.Instrs[0]), fmt.Sprintf("the two results are not Location and Binding of the same list element (got %s / %s)", fx.path(s.val), fx.path(other)))
 			continue
 		}
@@ -136,7 +143,7 @@ func checkC16(cx *Ctx, r *Report) {
 		ll := lvf.objLabels(slot0.X, 0)
 		okList := len(ll) > 0
 		for l := range ll {
-			if l != "param:provider.GetAcsUrlAndBindingForResponse/acs" {
+			if l != "param:provider.GetAcsUrlAndBindingForResponse/#0" {
 				okList = false
 			}
 		}
@@ -156,19 +163,19 @@ func checkC16(cx *Ctx, r *Report) {
 			g1, g2, lt, firstCand, nothingYet, sentinel := false, false, false, false, false, ""
 			for _, a := range p.Atoms {
 				switch {
-				case a.Op == "EQ" && !a.Neg && (strings.HasSuffix(a.A, ".Binding") && strings.HasSuffix(a.B, "/requestProtocolBinding") || strings.HasSuffix(a.B, ".Binding") && strings.HasSuffix(a.A, "/requestProtocolBinding")):
+				case a.Op == "EQ" && !a.Neg && (strings.HasSuffix(a.A, ".Binding") && a.TB == "<#1 string>" || strings.HasSuffix(a.B, ".Binding") && a.TA == "<#1 string>"):
 					if c, ok := a.Cond.(*ssa.BinOp); ok {
 						sl, _ := cx.elemFieldOf(c.X)
 						if sl == nil {
 							sl, _ = cx.elemFieldOf(c.Y)
 						}
-						if sl == slot0 {
+						if sameSlot(sl, slot0) {
 							g1 = true
 						}
 					}
 				case strings.HasPrefix(a.Op, "CALL:") && !a.Neg && strings.HasSuffix(a.A, ".IsDefault") && cx.isHelperAtom(a, helpers):
 					if c, ok := stripNot(a.Cond).(*ssa.Call); ok && len(c.Call.Args) == 1 {
-						if sl, _ := cx.elemFieldOf(c.Call.Args[0]); sl == slot0 {
+						if sl, _ := cx.elemFieldOf(c.Call.Args[0]); sameSlot(sl, slot0) {
 							g2 = true
 						}
 					}
@@ -180,19 +187,10 @@ func checkC16(cx *Ctx, r *Report) {
 						for _, o := range []ssa.Value{c.X, c.Y} {
 							if ex, ok := o.(*ssa.Extract); ok {
 								if cl, ok := ex.Tuple.(*ssa.Call); ok && calleeName(cl) == "strconv.Atoi" {
-									if sl, f := cx.elemFieldOf(cl.Call.Args[0]); sl == slot0 && f == "Index" && strings.HasPrefix(a.A, "call@") {
+									if sl, f := cx.elemFieldOf(cl.Call.Args[0]); sameSlot(sl, slot0) && f == "Index" && strings.HasPrefix(a.A, "call@") {
 										lt = true
 									}
 								}
-							}
-						}
-					}
-				case a.Op == "TRUE" && a.Neg:
-					// a boolean flag that is false: "no candidate yet" if the flag becomes true in this very block
-					if phi, ok := stripNot(a.Cond).(*ssa.Phi); ok {
-						for i, e := range phi.Edges {
-							if c, ok := e.(*ssa.Const); ok && c.Value != nil && c.Value.ExactString() == "true" && phi.Block().Preds[i] == s.pred {
-								firstCand = true
 							}
 						}
 					}
@@ -204,6 +202,21 @@ func checkC16(cx *Ctx, r *Report) {
 					}
 				case a.Op == "EQ" && !a.Neg && strings.HasPrefix(a.A, "const:") && strings.HasPrefix(a.B, "phi@") || a.Op == "EQ" && !a.Neg && strings.HasPrefix(a.B, "const:") && strings.HasPrefix(a.A, "phi@"):
 					sentinel = a.String()
+				}
+			}
+			// a boolean flag found false on this path: "no candidate yet" if the flag becomes true in this very block
+			for _, rc := range p.Raw {
+				v := rc.Cond
+				pol := rc.Pol
+				for {
+					u, ok := v.(*ssa.UnOp)
+					if !ok || u.Op != token.NOT {
+						break
+					}
+					v, pol = u.X, !pol
+				}
+				if phi, ok := v.(*ssa.Phi); ok && !pol && flagSetBy(phi, s.pred, 0, map[*ssa.Phi]bool{}) {
+					firstCand = true
 				}
 			}
 			switch {
@@ -328,4 +341,38 @@ func (cx *Ctx) checkDecodedMetadataUntouched(r *Report) {
 		}
 	}
 	r.Ok("R-WHO", "decoded-metadata", "", fmt.Sprintf("%d field/element stores examined; none targets decoded metadata, no sort call on it", n))
+}
+
+// sameSlot: two element addresses denote the same element: the same instruction, or the same container value
+// indexed by the same index value (go/ssa performs no CSE, so acs[i].Location and acs[i].Binding are two IndexAddrs).
+func sameSlot(a, b *ssa.IndexAddr) bool {
+	if a == nil || b == nil {
+		return false
+	}
+	return a == b || a.X == b.X && a.Index == b.Index
+}
+
+// flagSetBy: the boolean flag phi receives the constant true from block b (or from a block only reachable
+// through b), possibly through the merge phis of a three-clause loop.
+func flagSetBy(phi *ssa.Phi, b *ssa.BasicBlock, depth int, seen map[*ssa.Phi]bool) bool {
+	if depth > 4 || seen[phi] {
+		return false
+	}
+	seen[phi] = true
+	for i, e := range phi.Edges {
+		switch x := e.(type) {
+		case *ssa.Const:
+			if x.Value != nil && x.Value.ExactString() == "true" {
+				p := phi.Block().Preds[i]
+				if p == b || b.Dominates(p) {
+					return true
+				}
+			}
+		case *ssa.Phi:
+			if flagSetBy(x, b, depth+1, seen) {
+				return true
+			}
+		}
+	}
+	return false
 }
